@@ -97,9 +97,7 @@ impl<'n> TryFromNode<'n> for Field {
                 });
             }
 
-            let namespace: Option<Rc<Namespace>> = namespace_ref
-                .and_then(|ns| doc.find_namespace_by_abbreviation(ns))
-                .cloned();
+            let namespace: Option<Rc<Namespace>> = doc.find_namespace_of_prefix(namespace_ref).cloned();
 
             let kind = match node.tag_name().name() {
                 "element" => ComponentKind::Element,
@@ -287,7 +285,7 @@ fn split_type(node_type: &str) -> (&str, Option<&str>) {
 
 pub fn resolve_type<'n>(node_type: &'n str, doc: &RustDocument) -> (&'n str, Option<Rc<Namespace>>) {
     let (node_type, namespace) = split_type(node_type);
-    let namespace = namespace.and_then(|ns| doc.find_namespace_by_abbreviation(ns));
+    let namespace = doc.find_namespace_of_prefix(namespace);
     (node_type, namespace.cloned())
 }
 
@@ -296,7 +294,8 @@ pub fn as_rust_type(node_type: &str, doc: &RustDocument) -> RustFieldType {
 
     // a prefix that is bound to one of the schema's own namespaces names a user defined type, even when its local
     // name is that of a built-in type (e.g. `tns:date`)
-    if let Some(module) = namespace.and_then(|ns| doc.find_module_name_from_namespace_reference(ns)) {
+    let namespace = doc.find_namespace_of_prefix(namespace);
+    if let Some(module) = namespace.map(|ns| ns.rust_mod_name.as_str()) {
         return RustFieldType::Other(OtherRustType {
             name: xml_name_to_rust_name(node_type),
             module: Some(module.to_string()),
@@ -321,10 +320,7 @@ pub fn as_rust_type(node_type: &str, doc: &RustDocument) -> RustFieldType {
         "boolean" => RustFieldType::Bool,
         v => RustFieldType::Other(OtherRustType {
             name: xml_name_to_rust_name(v),
-            module: namespace.and_then(|ns| {
-                doc.find_module_name_from_namespace_reference(ns)
-                    .map(ToString::to_string)
-            }),
+            module: namespace.map(|ns| ns.rust_mod_name.clone()),
         }),
     }
 }
